@@ -7,7 +7,7 @@ From Coq Require Import String.
 From Coq Require Import List Arith Lia Bool ZArith Ring QArith Qcanon.
 From NV.Lib Require Import RingMat C05Lin.
 From NV.Generated Require Import PosRecipr KalmanReset.
-From NV.C05 Require Import Model Proofs Proofs2 Proofs3 Proofs4 Proofs5.
+From NV.C05 Require Import Model Proofs Proofs2 Proofs3 Proofs4 Proofs5 Proofs6.
 Import ListNotations.
 Close Scope Qc_scope.
 Close Scope Q_scope.
@@ -258,6 +258,52 @@ Proof.
                     Qc_eqb_false Qc_div_inv p kf_lambda); eauto.
 Qed.
 Print Assumptions kalman_step_algebra.
+
+(* ------------------------------------------------------------------ generalised least squares *)
+(* GLSModel whitens with C = cholsigmainv (oracle: cholesky / pinv).  Contract: C'C = S (= Sigma^-1),
+   tested against all pairs of vectors.  Then a solution b of the WHITENED normal equations (what the
+   inherited OLS fit computes) satisfies the generalised normal equations X'S(y - X b) = 0, the whitened
+   RSS is the generalised RSS r'S r, and b minimises it - for every covariance, correlated or not. *)
+Theorem gls_fit_minimises_generalised_rss : forall n p C S X y b b',
+    length X = n -> rows_len p X -> length y = n -> length S = n -> length C = n -> length b = length b' ->
+    (forall u v, length u = n -> length v = n -> q_dot (q_mv C u) (q_mv C v) = q_dot u (q_mv S v)) ->
+    q_normal_eq p (q_mm p C X) (q_mv C y) b ->
+    q_vm p (q_mv S (q_resid X y b)) X = vzero q0 p
+    /\ q_rss (q_mm p C X) (q_mv C y) b = q_dot (q_resid X y b) (q_mv S (q_resid X y b))
+    /\ Qcle (q_dot (q_resid X y b) (q_mv S (q_resid X y b))) (q_dot (q_resid X y b') (q_mv S (q_resid X y b'))).
+Proof.
+  intros n p C S X y b b' LX HX Ly LS LC Lb HC HN.
+  pose proof (gls_normal_eq_generalised Qc q0 q1 Qcplus Qcmult Qcminus Qcopp Qcring_th n p C S X y LX HX Ly LS HC b) as E.
+  pose proof (gls_rss_generalised Qc q0 q1 Qcplus Qcmult Qcminus Qcopp Qcring_th n p C S X y LX HX Ly LS HC) as G.
+  split; [now apply E|]. split; [apply G|].
+  unfold q_dot, q_resid, q_mv. rewrite <- !G.
+  apply (C05Lin.normal_eq_optimal Qc q0 q1 Qcplus Qcmult Qcminus Qcopp Qcring_th Qcle Qcle_refl Qcle_trans
+           Qc_le_add Qc_sq_nonneg n p); auto.
+  - now rewrite mm_length.
+  - now apply mm_rows_len.
+  - rewrite mv_length. exact LC.
+Qed.
+Print Assumptions gls_fit_minimises_generalised_rss.
+
+(* the data-independent outputs of the Kalman filter: for the same design, Vb and t are the same
+   for every data vector (zero, constant, anything), t = n, and Vb is the inverse of X'X + lambda I *)
+Theorem kalman_Vb_data_independent : forall p X y1 y2 s1 s2,
+    rows_len p X -> length y1 = length X -> length y2 = length X ->
+    q_kf_fit p kf_init_var X y1 = Some s1 -> q_kf_fit p kf_init_var X y2 = Some s2 ->
+    kVb s1 = kVb s2 /\ kt s1 = kt s2 /\ kt s1 = length X
+    /\ forall v w, length v = p -> length w = p ->
+                   Qcplus (q_dot (q_mv X (q_mv (kVb s1) w)) (q_mv X v)) (Qcmult kf_lambda (q_dot (q_mv (kVb s1) w) v))
+                   = q_dot w v.
+Proof.
+  intros p X y1 y2 s1 s2 HX L1 L2 F1 F2.
+  destruct (kf_fit_data_independent Qc q0 q1 Qcplus Qcmult Qcminus Qcdiv Qcopp Qc_eq_bool p kf_init_var X y1 y2 s1 s2 L1 L2 F1 F2)
+    as [EV ET].
+  pose proof (kf_fit_inv Qc q0 q1 Qcplus Qcmult Qcminus Qcdiv Qcopp Qcring_th Qc_eq_bool Qc_eqb_false Qc_div_inv
+                p kf_lambda kf_init_var kf_lambda_init X y1 s1 HX L1 F1) as I.
+  split; [exact EV|]. split; [exact ET|]. split; [apply (i_T _ _ _ _ _ _ _ _ _ _ I)|].
+  intros v w Hv Hw. exact (i_L _ _ _ _ _ _ _ _ _ _ I v w Hv Hw).
+Qed.
+Print Assumptions kalman_Vb_data_independent.
 
 (* ------------------------------------------------------------------ contrasts *)
 (* an estimable contrast c1 = X1'a and its image c2 = M'c1 under X2 = X1 M (same column space;
